@@ -31,7 +31,8 @@ RtChecks(e) ==
     <<"model_round_trip", WellFormed(before) => RoundTrip(before)>>>>
 
 DocChecks(e) ==
-  <<<<"never_panics", e.outcome \in {"Ok", "Err"}>>,
+  (* "NotRun": the harness stops reading documents after five reads of this run have hung *)
+  <<<<"never_panics", e.outcome \in {"Ok", "Err", "NotRun"}>>,
     <<"contract", e.outcome \in {"Ok", "Err"} => ReadConforms(e.toks, e.specs, e.outcome, ToGraph(e.post))>>>>
 
 CorruptChecks(e) == <<<<"never_panics", e.bad = 0>>>>
